@@ -440,819 +440,6 @@ theorem C13_strip_mangles_exactly :
     headColumns.filter (fun col => pyStrip "_start" (col ++ "_start") != col) = ["rabbit_head", "turkey_head", "asses_head"] := by
   decide +kernel
 
-/-! ## 6. the options mean what they say: generated tables = hand-written specification
-
-Transcribed from `scenarios/README.md` ("Allowed Values") and the setters' docstrings / comments:
-shut-off months and the percent fed before non-human consumption, waste percentages, intake caps,
-nutrition profiles, stock regimes, seasonality, grass and crop ratios, which `ADD_*` switches and delays
-each resilient-food set turns on.  A changed constant, a forgotten assignment, an extra assignment or a
-branch calling another setter makes `decide` fail. -/
-
-abbrev n (i : Int) : Ex := .lit (.num i 0)
-/-- the decimal `m·10^e` -/
-abbrev d (m e : Int) : Ex := .lit (.num m e)
-abbrev b (x : Bool) : Ex := .lit (.bool x)
-abbrev s (x : String) : Ex := .lit (.str x)
-abbrev cd (x : String) : Ex := .cd x
-abbrev c (x : String) : Ex := .const x
-abbrev dict : Ex := .emptyDict
-
-def sp_init_global_food_system_properties : Spec :=
-  { name := "init_global_food_system_properties", params := [], family := ["SCALE_SET", "GENERIC_INITIALIZED_SET"], scope := none, setsScope := some true, needs := [],
-    writes := [
-      ("GLOBAL_POP", .ex (n 7723713182)),
-      ("INITIAL_GLOBAL_CROP_AREA", .ex (n 1430000000)),
-      ("DELAY", .ex (dict)),
-      ("INITIAL_HARVEST_DURATION_IN_MONTHS", .ex (n 8)),
-      ("DELAY/ROTATION_CHANGE_IN_MONTHS", .ex (n 2)),
-      ("ADD_FISH", .ex (b true)),
-      ("POP", .ex (n 7723713182)),
-      ("BASELINE_CROP_KCALS", .ex (n 3898000000)),
-      ("BASELINE_CROP_FAT", .ex (n 322000000)),
-      ("BASELINE_CROP_PROTEIN", .ex (n 350000000)),
-      ("BIOFUEL_KCALS", .ex (n 623000000)),
-      ("BIOFUEL_FAT", .ex (n 124000000)),
-      ("BIOFUEL_PROTEIN", .ex (n 32000000)),
-      ("FEED_KCALS", .ex (n 1447960000)),
-      ("FEED_FAT", .ex (n 60000000)),
-      ("FEED_PROTEIN", .ex (n 147000000)),
-      ("HUMAN_INEDIBLE_FEED_BASELINE_MONTHLY", .ex (.div (.mul (n 4206) (n 1000000)) (n 12))),
-      ("END_OF_MONTH_STOCKS", .ex (dict)),
-      ("END_OF_MONTH_STOCKS/JAN", .ex (.mul (n 1960922000) (d 1015 (-3)))),
-      ("END_OF_MONTH_STOCKS/FEB", .ex (.mul (n 1784277000) (d 1015 (-3)))),
-      ("END_OF_MONTH_STOCKS/MAR", .ex (.mul (n 1624673000) (d 1015 (-3)))),
-      ("END_OF_MONTH_STOCKS/APR", .ex (.mul (n 1492822000) (d 1015 (-3)))),
-      ("END_OF_MONTH_STOCKS/MAY", .ex (.mul (n 1359236000) (d 1015 (-3)))),
-      ("END_OF_MONTH_STOCKS/JUN", .ex (.mul (n 1245351000) (d 1015 (-3)))),
-      ("END_OF_MONTH_STOCKS/JUL", .ex (.mul (n 1246485000) (d 1015 (-3)))),
-      ("END_OF_MONTH_STOCKS/AUG", .ex (.mul (n 1140824000) (d 1015 (-3)))),
-      ("END_OF_MONTH_STOCKS/SEP", .ex (.mul (n 1196499000) (d 1015 (-3)))),
-      ("END_OF_MONTH_STOCKS/OCT", .ex (.mul (n 1487030000) (d 1015 (-3)))),
-      ("END_OF_MONTH_STOCKS/NOV", .ex (.mul (n 1642406000) (d 1015 (-3)))),
-      ("END_OF_MONTH_STOCKS/DEC", .ex (.mul (n 1813862000) (d 1015 (-3)))),
-      ("SEAWEED_GROWTH_PER_DAY", .ex (dict)),
-      ("INITIAL_MILK_CATTLE", .ex (n 264000000)),
-      ("INIT_SMALL_ANIMALS", .ex (n 28200000000)),
-      ("INIT_MEDIUM_ANIMALS", .ex (n 3200000000)),
-      ("INIT_LARGE_ANIMALS_WITH_MILK_COWS", .ex (n 1900000000)),
-      ("FISH_DRY_CALORIC_ANNUAL", .ex (n 27500000)),
-      ("FISH_FAT_TONS_ANNUAL", .ex (n 4000000)),
-      ("FISH_PROTEIN_TONS_ANNUAL", .ex (n 17000000)),
-      ("TONS_MILK_ANNUAL", .ex (n 879000000)),
-      ("TONS_CHICKEN_AND_PORK_ANNUAL", .ex (n 250000000)),
-      ("TONS_BEEF_ANNUAL", .ex (n 74200000)),
-      ("SCP_GLOBAL_PRODUCTION_FRACTION", .ex (n 1)),
-      ("CS_GLOBAL_PRODUCTION_FRACTION", .ex (n 1)),
-      ("SEAWEED_NEW_AREA_FRACTION", .ex (n 1)),
-      ("SEAWEED_MAX_AREA_FRACTION", .ex (n 1)),
-      ("ROTATION_IMPROVEMENTS", .ex (dict)),
-      ("ROTATION_IMPROVEMENTS/POWER_LAW_IMPROVEMENT", .ex (d 796 (-3))),
-      ("INITIAL_SEAWEED_FRACTION", .ex (n 1)),
-      ("INITIAL_BUILT_SEAWEED_FRACTION", .ex (n 1)),
-      ("INITIAL_CROP_AREA_FRACTION", .ex (n 1)),
-      ("MILK_YIELD_KG_PER_MILK_BEARING_ANIMAL_PER_YEAR", .ex (d 10996 (-1))),
-      ("KG_MEAT_PER_PIG", .ex (n 86)),
-      ("KG_MEAT_PER_CHICKEN", .ex (d 165 (-2))),
-      ("COUNTRY_CODE", .ex (s "WOR"))] }
-
-def sp_set_immediate_shutoff : Spec :=
-  { name := "set_immediate_shutoff", params := ["constants_for_params"], family := ["NONHUMAN_CONSUMPTION_SET"], scope := none, setsScope := none, needs := [],
-    writes := [
-      ("DELAY/FEED_SHUTOFF_MONTHS", .ex (n 0)),
-      ("DELAY/BIOFUEL_SHUTOFF_MONTHS", .ex (n 0)),
-      ("MINIMUM_PERCENT_FED_BEFORE_NONHUMAN_CONSUMPTION_ALLOWED", .ex (n 100))] }
-
-def sp_set_one_month_delayed_shutoff : Spec :=
-  { name := "set_one_month_delayed_shutoff", params := ["constants_for_params"], family := ["NONHUMAN_CONSUMPTION_SET"], scope := none, setsScope := none, needs := [],
-    writes := [
-      ("DELAY/FEED_SHUTOFF_MONTHS", .ex (n 1)),
-      ("DELAY/BIOFUEL_SHUTOFF_MONTHS", .ex (n 1)),
-      ("MINIMUM_PERCENT_FED_BEFORE_NONHUMAN_CONSUMPTION_ALLOWED", .ex (n 100))] }
-
-def sp_set_short_delayed_shutoff : Spec :=
-  { name := "set_short_delayed_shutoff", params := ["constants_for_params"], family := ["NONHUMAN_CONSUMPTION_SET"], scope := none, setsScope := none, needs := [],
-    writes := [
-      ("DELAY/FEED_SHUTOFF_MONTHS", .ex (n 2)),
-      ("DELAY/BIOFUEL_SHUTOFF_MONTHS", .ex (n 1)),
-      ("MINIMUM_PERCENT_FED_BEFORE_NONHUMAN_CONSUMPTION_ALLOWED", .ex (n 100))] }
-
-def sp_set_long_delayed_shutoff : Spec :=
-  { name := "set_long_delayed_shutoff", params := ["constants_for_params"], family := ["NONHUMAN_CONSUMPTION_SET"], scope := none, setsScope := none, needs := [],
-    writes := [
-      ("DELAY/FEED_SHUTOFF_MONTHS", .ex (n 3)),
-      ("DELAY/BIOFUEL_SHUTOFF_MONTHS", .ex (n 2)),
-      ("MINIMUM_PERCENT_FED_BEFORE_NONHUMAN_CONSUMPTION_ALLOWED", .ex (n 100))] }
-
-def sp_set_continued_feed_biofuels : Spec :=
-  { name := "set_continued_feed_biofuels", params := ["constants_for_params"], family := ["NONHUMAN_CONSUMPTION_SET"], scope := none, setsScope := none, needs := ["STORE_FOOD_BETWEEN_YEARS"],
-    writes := [
-      ("DELAY/FEED_SHUTOFF_MONTHS", .ex (c "NMONTHS")),
-      ("DELAY/BIOFUEL_SHUTOFF_MONTHS", .ex (c "NMONTHS")),
-      ("MINIMUM_PERCENT_FED_BEFORE_NONHUMAN_CONSUMPTION_ALLOWED", .ex (n 100))] }
-
-def sp_set_continued_after_10_percent_fed : Spec :=
-  { name := "set_continued_after_10_percent_fed", params := ["constants_for_params"], family := ["NONHUMAN_CONSUMPTION_SET"], scope := none, setsScope := none, needs := ["STORE_FOOD_BETWEEN_YEARS"],
-    writes := [
-      ("DELAY/FEED_SHUTOFF_MONTHS", .ex (c "NMONTHS")),
-      ("DELAY/BIOFUEL_SHUTOFF_MONTHS", .ex (c "NMONTHS")),
-      ("MINIMUM_PERCENT_FED_BEFORE_NONHUMAN_CONSUMPTION_ALLOWED", .ex (n 10))] }
-
-def sp_set_long_delayed_shutoff_after_10_percent_fed : Spec :=
-  { name := "set_long_delayed_shutoff_after_10_percent_fed", params := ["constants_for_params"], family := ["NONHUMAN_CONSUMPTION_SET"], scope := none, setsScope := none, needs := ["STORE_FOOD_BETWEEN_YEARS"],
-    writes := [
-      ("DELAY/FEED_SHUTOFF_MONTHS", .ex (n 12)),
-      ("DELAY/BIOFUEL_SHUTOFF_MONTHS", .ex (n 6)),
-      ("MINIMUM_PERCENT_FED_BEFORE_NONHUMAN_CONSUMPTION_ALLOWED", .ex (n 10))] }
-
-def sp_set_breeding_to_greatly_reduced : Spec :=
-  { name := "set_breeding_to_greatly_reduced", params := ["constants_for_params"], family := ["MEAT_STRATEGY_SET"], scope := none, setsScope := none, needs := [],
-    writes := [
-      ("BREEDING_STRATEGY", .ex (s "reduced"))] }
-
-def sp_set_to_baseline_breeding : Spec :=
-  { name := "set_to_baseline_breeding", params := ["constants_for_params"], family := ["MEAT_STRATEGY_SET"], scope := none, setsScope := none, needs := [],
-    writes := [
-      ("BREEDING_STRATEGY", .ex (s "baseline"))] }
-
-def sp_set_to_feed_only_ruminants : Spec :=
-  { name := "set_to_feed_only_ruminants", params := ["constants_for_params"], family := ["MEAT_STRATEGY_SET"], scope := none, setsScope := none, needs := [],
-    writes := [
-      ("BREEDING_STRATEGY", .ex (s "feed_only_ruminants"))] }
-
-def sp_set_waste_to_zero : Spec :=
-  { name := "set_waste_to_zero", params := ["constants_for_params"], family := ["WASTE_SET"], scope := none, setsScope := none, needs := [],
-    writes := [
-      ("WASTE_DISTRIBUTION", .ex (dict)),
-      ("WASTE_DISTRIBUTION/SUGAR", .ex (n 0)),
-      ("WASTE_DISTRIBUTION/MEAT", .ex (n 0)),
-      ("WASTE_DISTRIBUTION/MILK", .ex (n 0)),
-      ("WASTE_DISTRIBUTION/SEAFOOD", .ex (n 0)),
-      ("WASTE_DISTRIBUTION/CROPS", .ex (n 0)),
-      ("WASTE_DISTRIBUTION/SEAWEED", .ex (n 0)),
-      ("WASTE_RETAIL", .ex (n 0))] }
-
-def sp_set_global_waste_to_tripled_prices : Spec :=
-  { name := "set_global_waste_to_tripled_prices", params := ["constants_for_params"], family := ["WASTE_SET"], scope := some true, setsScope := none, needs := [],
-    writes := [
-      ("WASTE_DISTRIBUTION", .ex (dict)),
-      ("WASTE_DISTRIBUTION/SUGAR", .ex (d 9 (-2))),
-      ("WASTE_DISTRIBUTION/CROPS", .ex (d 496 (-2))),
-      ("WASTE_DISTRIBUTION/MEAT", .ex (d 8 (-1))),
-      ("WASTE_DISTRIBUTION/MILK", .ex (d 212 (-2))),
-      ("WASTE_DISTRIBUTION/SEAFOOD", .ex (d 17 (-2))),
-      ("WASTE_DISTRIBUTION/SEAWEED", .ex (d 17 (-2))),
-      ("WASTE_RETAIL", .ex (d 608 (-2)))] }
-
-def sp_set_global_waste_to_doubled_prices : Spec :=
-  { name := "set_global_waste_to_doubled_prices", params := ["constants_for_params"], family := ["WASTE_SET"], scope := some true, setsScope := none, needs := [],
-    writes := [
-      ("WASTE_DISTRIBUTION", .ex (dict)),
-      ("WASTE_DISTRIBUTION/SUGAR", .ex (d 9 (-2))),
-      ("WASTE_DISTRIBUTION/CROPS", .ex (d 496 (-2))),
-      ("WASTE_DISTRIBUTION/MEAT", .ex (d 8 (-1))),
-      ("WASTE_DISTRIBUTION/MILK", .ex (d 212 (-2))),
-      ("WASTE_DISTRIBUTION/SEAFOOD", .ex (d 17 (-2))),
-      ("WASTE_DISTRIBUTION/SEAWEED", .ex (d 17 (-2))),
-      ("WASTE_RETAIL", .ex (d 106 (-1)))] }
-
-def sp_set_global_waste_to_baseline_prices : Spec :=
-  { name := "set_global_waste_to_baseline_prices", params := ["constants_for_params"], family := ["WASTE_SET"], scope := some true, setsScope := none, needs := [],
-    writes := [
-      ("WASTE_DISTRIBUTION", .ex (dict)),
-      ("WASTE_DISTRIBUTION/SUGAR", .ex (d 9 (-2))),
-      ("WASTE_DISTRIBUTION/CROPS", .ex (d 496 (-2))),
-      ("WASTE_DISTRIBUTION/MEAT", .ex (d 8 (-1))),
-      ("WASTE_DISTRIBUTION/MILK", .ex (d 212 (-2))),
-      ("WASTE_DISTRIBUTION/SEAFOOD", .ex (d 17 (-2))),
-      ("WASTE_DISTRIBUTION/SEAWEED", .ex (d 17 (-2))),
-      ("WASTE_RETAIL", .ex (d 2498 (-2)))] }
-
-def sp_set_country_waste_to_tripled_prices : Spec :=
-  { name := "set_country_waste_to_tripled_prices", params := ["constants_for_params", "country_data"], family := ["WASTE_SET"], scope := some false, setsScope := none, needs := [],
-    writes := [
-      ("WASTE_DISTRIBUTION", .ex (dict)),
-      ("WASTE_DISTRIBUTION/SUGAR", .ex (.mul (cd "distribution_loss_sugar") (n 100))),
-      ("WASTE_DISTRIBUTION/CROPS", .ex (.mul (cd "distribution_loss_crops") (n 100))),
-      ("WASTE_DISTRIBUTION/MEAT", .ex (.mul (cd "distribution_loss_meat") (n 100))),
-      ("WASTE_DISTRIBUTION/MILK", .ex (.mul (cd "distribution_loss_dairy") (n 100))),
-      ("WASTE_DISTRIBUTION/SEAFOOD", .ex (.mul (cd "distribution_loss_seafood") (n 100))),
-      ("WASTE_DISTRIBUTION/SEAWEED", .ex (.mul (cd "distribution_loss_seafood") (n 100))),
-      ("WASTE_RETAIL", .ex (.mul (cd "retail_waste_price_triple") (n 100)))] }
-
-def sp_set_country_waste_to_doubled_prices : Spec :=
-  { name := "set_country_waste_to_doubled_prices", params := ["constants_for_params", "country_data"], family := ["WASTE_SET"], scope := some false, setsScope := none, needs := [],
-    writes := [
-      ("WASTE_DISTRIBUTION", .ex (dict)),
-      ("WASTE_DISTRIBUTION/SUGAR", .ex (.mul (cd "distribution_loss_sugar") (n 100))),
-      ("WASTE_DISTRIBUTION/CROPS", .ex (.mul (cd "distribution_loss_crops") (n 100))),
-      ("WASTE_DISTRIBUTION/MEAT", .ex (.mul (cd "distribution_loss_meat") (n 100))),
-      ("WASTE_DISTRIBUTION/MILK", .ex (.mul (cd "distribution_loss_dairy") (n 100))),
-      ("WASTE_DISTRIBUTION/SEAFOOD", .ex (.mul (cd "distribution_loss_seafood") (n 100))),
-      ("WASTE_DISTRIBUTION/SEAWEED", .ex (.mul (cd "distribution_loss_seafood") (n 100))),
-      ("WASTE_RETAIL", .ex (.mul (cd "retail_waste_price_double") (n 100)))] }
-
-def sp_set_country_waste_to_baseline_prices : Spec :=
-  { name := "set_country_waste_to_baseline_prices", params := ["constants_for_params", "country_data"], family := ["WASTE_SET"], scope := some false, setsScope := none, needs := [],
-    writes := [
-      ("WASTE_DISTRIBUTION", .ex (dict)),
-      ("WASTE_DISTRIBUTION/SUGAR", .ex (.mul (cd "distribution_loss_sugar") (n 100))),
-      ("WASTE_DISTRIBUTION/CROPS", .ex (.mul (cd "distribution_loss_crops") (n 100))),
-      ("WASTE_DISTRIBUTION/MEAT", .ex (.mul (cd "distribution_loss_meat") (n 100))),
-      ("WASTE_DISTRIBUTION/MILK", .ex (.mul (cd "distribution_loss_dairy") (n 100))),
-      ("WASTE_DISTRIBUTION/SEAFOOD", .ex (.mul (cd "distribution_loss_seafood") (n 100))),
-      ("WASTE_DISTRIBUTION/SEAWEED", .ex (.mul (cd "distribution_loss_seafood") (n 100))),
-      ("WASTE_RETAIL", .ex (.mul (cd "retail_waste_baseline") (n 100)))] }
-
-def sp_set_baseline_nutrition_profile : Spec :=
-  { name := "set_baseline_nutrition_profile", params := ["constants_for_params"], family := ["NUTRITION_PROFILE_SET"], scope := none, setsScope := none, needs := [],
-    writes := [
-      ("NUTRITION", .ex (dict)),
-      ("NUTRITION/KCALS_DAILY", .ex (n 2100)),
-      ("NUTRITION/FAT_DAILY", .ex (d 617 (-1))),
-      ("NUTRITION/PROTEIN_DAILY", .ex (d 595 (-1)))] }
-
-def sp_set_catastrophe_nutrition_profile : Spec :=
-  { name := "set_catastrophe_nutrition_profile", params := ["constants_for_params"], family := ["NUTRITION_PROFILE_SET"], scope := none, setsScope := none, needs := [],
-    writes := [
-      ("NUTRITION", .ex (dict)),
-      ("NUTRITION/KCALS_DAILY", .ex (n 2100)),
-      ("NUTRITION/FAT_DAILY", .ex (n 47)),
-      ("NUTRITION/PROTEIN_DAILY", .ex (n 51))] }
-
-def sp_set_intake_constraints_to_enabled : Spec :=
-  { name := "set_intake_constraints_to_enabled", params := ["constants_for_params"], family := ["INTAKE_CONSTRAINTS_SET"], scope := none, setsScope := none, needs := [],
-    writes := [
-      ("MAX_SEAWEED_AS_PERCENT_KCALS_HUMANS", .ex (n 10)),
-      ("MAX_CELLULOSIC_SUGAR_AS_PERCENT_KCALS_HUMANS", .ex (n 40)),
-      ("MAX_METHANE_SCP_AS_PERCENT_KCALS_HUMANS", .ex (n 50)),
-      ("MAX_SEAWEED_AS_PERCENT_KCALS_FEED", .ex (n 10)),
-      ("MAX_CELLULOSIC_SUGAR_AS_PERCENT_KCALS_FEED", .ex (n 10)),
-      ("MAX_METHANE_SCP_AS_PERCENT_KCALS_FEED", .ex (n 43)),
-      ("MAX_SEAWEED_AS_PERCENT_KCALS_BIOFUEL", .ex (n 10)),
-      ("MAX_CELLULOSIC_SUGAR_AS_PERCENT_KCALS_BIOFUEL", .ex (n 100)),
-      ("MAX_METHANE_SCP_AS_PERCENT_KCALS_BIOFUEL", .ex (n 100))] }
-
-def sp_set_intake_constraints_to_disabled_for_humans : Spec :=
-  { name := "set_intake_constraints_to_disabled_for_humans", params := ["constants_for_params"], family := ["INTAKE_CONSTRAINTS_SET"], scope := none, setsScope := none, needs := [],
-    writes := [
-      ("MAX_SEAWEED_AS_PERCENT_KCALS_HUMANS", .ex (n 100)),
-      ("MAX_CELLULOSIC_SUGAR_AS_PERCENT_KCALS_HUMANS", .ex (n 100)),
-      ("MAX_METHANE_SCP_AS_PERCENT_KCALS_HUMANS", .ex (n 100)),
-      ("MAX_SEAWEED_AS_PERCENT_KCALS_FEED", .ex (n 10)),
-      ("MAX_CELLULOSIC_SUGAR_AS_PERCENT_KCALS_FEED", .ex (n 10)),
-      ("MAX_METHANE_SCP_AS_PERCENT_KCALS_FEED", .ex (n 43)),
-      ("MAX_SEAWEED_AS_PERCENT_KCALS_BIOFUEL", .ex (n 10)),
-      ("MAX_CELLULOSIC_SUGAR_AS_PERCENT_KCALS_BIOFUEL", .ex (n 100)),
-      ("MAX_METHANE_SCP_AS_PERCENT_KCALS_BIOFUEL", .ex (n 100))] }
-
-def sp_set_no_stored_food : Spec :=
-  { name := "set_no_stored_food", params := ["constants_for_params"], family := ["STORED_FOOD_SET"], scope := none, setsScope := none, needs := [],
-    writes := [
-      ("STORE_FOOD_BETWEEN_YEARS", .ex (b true)),
-      ("PERCENT_STORED_FOOD_TO_USE", .ex (n 0)),
-      ("ADD_STORED_FOOD", .ex (b false))] }
-
-def sp_set_baseline_stored_food : Spec :=
-  { name := "set_baseline_stored_food", params := ["constants_for_params"], family := ["STORED_FOOD_SET"], scope := none, setsScope := none, needs := [],
-    writes := [
-      ("STORE_FOOD_BETWEEN_YEARS", .ex (b true)),
-      ("PERCENT_STORED_FOOD_TO_USE", .ex (n 100)),
-      ("ADD_STORED_FOOD", .ex (b true))] }
-
-def sp_set_stored_food_buffer_zero : Spec :=
-  { name := "set_stored_food_buffer_zero", params := ["constants_for_params"], family := ["STORED_FOOD_END_SIM_SET"], scope := none, setsScope := none, needs := [],
-    writes := [
-      ("STORE_FOOD_BETWEEN_YEARS", .ex (b true)),
-      ("RATIO_STOCKS_UNTOUCHED", .ex (n 0))] }
-
-def sp_set_no_stored_food_between_years : Spec :=
-  { name := "set_no_stored_food_between_years", params := ["constants_for_params"], family := ["STORED_FOOD_END_SIM_SET"], scope := none, setsScope := none, needs := [],
-    writes := [
-      ("STORE_FOOD_BETWEEN_YEARS", .ex (b false)),
-      ("RATIO_STOCKS_UNTOUCHED", .ex (n 0))] }
-
-def sp_set_stored_food_buffer_as_baseline : Spec :=
-  { name := "set_stored_food_buffer_as_baseline", params := ["constants_for_params"], family := ["STORED_FOOD_END_SIM_SET"], scope := none, setsScope := none, needs := [],
-    writes := [
-      ("STORE_FOOD_BETWEEN_YEARS", .ex (b true)),
-      ("RATIO_STOCKS_UNTOUCHED", .ex (n 1))] }
-
-def sp_set_stored_food_buffer_as_baseline_and_no_stored_between_years : Spec :=
-  { name := "set_stored_food_buffer_as_baseline_and_no_stored_between_years", params := ["constants_for_params"], family := ["STORED_FOOD_END_SIM_SET"], scope := none, setsScope := none, needs := [],
-    writes := [
-      ("STORE_FOOD_BETWEEN_YEARS", .ex (b false)),
-      ("RATIO_STOCKS_UNTOUCHED", .ex (n 1))] }
-
-def sp_set_no_seasonality : Spec :=
-  { name := "set_no_seasonality", params := ["constants_for_params"], family := ["SEASONALITY_SET"], scope := none, setsScope := none, needs := [],
-    writes := [
-      ("SEASONALITY", .list [.div (n 1) (n 12), .div (n 1) (n 12), .div (n 1) (n 12), .div (n 1) (n 12), .div (n 1) (n 12), .div (n 1) (n 12), .div (n 1) (n 12), .div (n 1) (n 12), .div (n 1) (n 12), .div (n 1) (n 12), .div (n 1) (n 12), .div (n 1) (n 12)])] }
-
-def sp_set_global_seasonality_baseline : Spec :=
-  { name := "set_global_seasonality_baseline", params := ["constants_for_params"], family := ["SEASONALITY_SET"], scope := some true, setsScope := none, needs := [],
-    writes := [
-      ("SEASONALITY", .list [d 1121 (-4), d 178 (-4), d 241 (-4), d 344 (-4), d 338 (-4), d 411 (-4), d 882 (-4), d 791 (-4), d 1042 (-4), d 1911 (-4), d 1377 (-4), d 1365 (-4)])] }
-
-def sp_set_global_seasonality_nuclear_winter : Spec :=
-  { name := "set_global_seasonality_nuclear_winter", params := ["constants_for_params"], family := ["SEASONALITY_SET"], scope := some true, setsScope := none, needs := [],
-    writes := [
-      ("SEASONALITY", .list [d 1564 (-4), d 461 (-4), d 65 (-3), d 1017 (-4), d 772 (-4), d 785 (-4), d 667 (-4), d 256 (-4), d 163 (-4), d 1254 (-4), d 1183 (-4), d 1228 (-4)])] }
-
-def sp_set_grasses_baseline : Spec :=
-  { name := "set_grasses_baseline", params := ["constants_for_params"], family := ["GRASSES_SET"], scope := none, setsScope := none, needs := [],
-    writes := [
-      ("RATIO_GRASSES_YEAR1", .ex (n 1)),
-      ("RATIO_GRASSES_YEAR2", .ex (n 1)),
-      ("RATIO_GRASSES_YEAR3", .ex (n 1)),
-      ("RATIO_GRASSES_YEAR4", .ex (n 1)),
-      ("RATIO_GRASSES_YEAR5", .ex (n 1)),
-      ("RATIO_GRASSES_YEAR6", .ex (n 1)),
-      ("RATIO_GRASSES_YEAR7", .ex (n 1)),
-      ("RATIO_GRASSES_YEAR8", .ex (n 1)),
-      ("RATIO_GRASSES_YEAR9", .ex (n 1)),
-      ("RATIO_GRASSES_YEAR10", .ex (n 1))] }
-
-def sp_set_global_grasses_nuclear_winter : Spec :=
-  { name := "set_global_grasses_nuclear_winter", params := ["constants_for_params"], family := ["GRASSES_SET"], scope := some true, setsScope := none, needs := [],
-    writes := [
-      ("RATIO_GRASSES_YEAR1", .ex (d 72 (-2))),
-      ("RATIO_GRASSES_YEAR2", .ex (d 24 (-2))),
-      ("RATIO_GRASSES_YEAR3", .ex (d 16 (-2))),
-      ("RATIO_GRASSES_YEAR4", .ex (d 13 (-2))),
-      ("RATIO_GRASSES_YEAR5", .ex (d 125 (-3))),
-      ("RATIO_GRASSES_YEAR6", .ex (d 15 (-2))),
-      ("RATIO_GRASSES_YEAR7", .ex (d 17 (-2))),
-      ("RATIO_GRASSES_YEAR8", .ex (d 23 (-2))),
-      ("RATIO_GRASSES_YEAR9", .ex (d 32 (-2))),
-      ("RATIO_GRASSES_YEAR10", .ex (d 41 (-2)))] }
-
-def sp_set_country_grasses_nuclear_winter : Spec :=
-  { name := "set_country_grasses_nuclear_winter", params := ["constants_for_params", "country_data"], family := ["GRASSES_SET"], scope := some false, setsScope := none, needs := [],
-    writes := [
-      ("RATIO_GRASSES_YEAR1", .ex (.add (n 1) (cd "grasses_reduction_year1"))),
-      ("RATIO_GRASSES_YEAR2", .ex (.add (n 1) (cd "grasses_reduction_year2"))),
-      ("RATIO_GRASSES_YEAR3", .ex (.add (n 1) (cd "grasses_reduction_year3"))),
-      ("RATIO_GRASSES_YEAR4", .ex (.add (n 1) (cd "grasses_reduction_year4"))),
-      ("RATIO_GRASSES_YEAR5", .ex (.add (n 1) (cd "grasses_reduction_year5"))),
-      ("RATIO_GRASSES_YEAR6", .ex (.add (n 1) (cd "grasses_reduction_year6"))),
-      ("RATIO_GRASSES_YEAR7", .ex (.add (n 1) (cd "grasses_reduction_year7"))),
-      ("RATIO_GRASSES_YEAR8", .ex (.add (n 1) (cd "grasses_reduction_year8"))),
-      ("RATIO_GRASSES_YEAR9", .ex (.add (n 1) (cd "grasses_reduction_year9"))),
-      ("RATIO_GRASSES_YEAR10", .ex (.add (n 1) (cd "grasses_reduction_year10")))] }
-
-def sp_set_country_grasses_to_zero : Spec :=
-  { name := "set_country_grasses_to_zero", params := ["constants_for_params"], family := ["GRASSES_SET"], scope := some false, setsScope := none, needs := [],
-    writes := [
-      ("RATIO_GRASSES_YEAR1", .ex (n 0)),
-      ("RATIO_GRASSES_YEAR2", .ex (n 0)),
-      ("RATIO_GRASSES_YEAR3", .ex (n 0)),
-      ("RATIO_GRASSES_YEAR4", .ex (n 0)),
-      ("RATIO_GRASSES_YEAR5", .ex (n 0)),
-      ("RATIO_GRASSES_YEAR6", .ex (n 0)),
-      ("RATIO_GRASSES_YEAR7", .ex (n 0)),
-      ("RATIO_GRASSES_YEAR8", .ex (n 0)),
-      ("RATIO_GRASSES_YEAR9", .ex (n 0)),
-      ("RATIO_GRASSES_YEAR10", .ex (n 0))] }
-
-def sp_set_fish_zero : Spec :=
-  { name := "set_fish_zero", params := ["constants_for_params", "time_consts"], family := ["FISH_SET"], scope := none, setsScope := none, needs := [],
-    writes := [
-      ("time_consts:FISH_PERCENT_MONTHLY", .rep (n 0) (c "NMONTHS"))] }
-
-def sp_set_fish_baseline : Spec :=
-  { name := "set_fish_baseline", params := ["constants_for_params", "time_consts"], family := ["FISH_SET"], scope := none, setsScope := none, needs := [],
-    writes := [
-      ("time_consts:FISH_PERCENT_MONTHLY", .rep (n 100) (c "NMONTHS"))] }
-
-def sp_set_disruption_to_crops_to_zero : Spec :=
-  { name := "set_disruption_to_crops_to_zero", params := ["constants_for_params"], family := ["DISRUPTION_SET"], scope := none, setsScope := none, needs := [],
-    writes := [
-      ("ADD_OUTDOOR_GROWING", .ex (b true)),
-      ("RATIO_CROPS_YEAR1", .ex (n 1)),
-      ("RATIO_CROPS_YEAR2", .ex (n 1)),
-      ("RATIO_CROPS_YEAR3", .ex (n 1)),
-      ("RATIO_CROPS_YEAR4", .ex (n 1)),
-      ("RATIO_CROPS_YEAR5", .ex (n 1)),
-      ("RATIO_CROPS_YEAR6", .ex (n 1)),
-      ("RATIO_CROPS_YEAR7", .ex (n 1)),
-      ("RATIO_CROPS_YEAR8", .ex (n 1)),
-      ("RATIO_CROPS_YEAR9", .ex (n 1)),
-      ("RATIO_CROPS_YEAR10", .ex (n 1))] }
-
-def sp_set_nuclear_winter_global_disruption_to_crops : Spec :=
-  { name := "set_nuclear_winter_global_disruption_to_crops", params := ["constants_for_params"], family := ["DISRUPTION_SET"], scope := some true, setsScope := none, needs := [],
-    writes := [
-      ("ADD_OUTDOOR_GROWING", .ex (b true)),
-      ("RATIO_CROPS_YEAR1", .ex (.sub (n 1) (d 53 (-2)))),
-      ("RATIO_CROPS_YEAR2", .ex (.sub (n 1) (d 82 (-2)))),
-      ("RATIO_CROPS_YEAR3", .ex (.sub (n 1) (d 89 (-2)))),
-      ("RATIO_CROPS_YEAR4", .ex (.sub (n 1) (d 88 (-2)))),
-      ("RATIO_CROPS_YEAR5", .ex (.sub (n 1) (d 84 (-2)))),
-      ("RATIO_CROPS_YEAR6", .ex (.sub (n 1) (d 76 (-2)))),
-      ("RATIO_CROPS_YEAR7", .ex (.sub (n 1) (d 65 (-2)))),
-      ("RATIO_CROPS_YEAR8", .ex (.sub (n 1) (d 5 (-1)))),
-      ("RATIO_CROPS_YEAR9", .ex (.sub (n 1) (d 33 (-2)))),
-      ("RATIO_CROPS_YEAR10", .ex (.sub (n 1) (d 17 (-2)))),
-      ("RATIO_CROPS_YEAR11", .ex (.sub (n 1) (d 8 (-2))))] }
-
-def sp_set_nuclear_winter_country_disruption_to_crops : Spec :=
-  { name := "set_nuclear_winter_country_disruption_to_crops", params := ["constants_for_params", "country_data"], family := ["DISRUPTION_SET"], scope := some false, setsScope := none, needs := [],
-    writes := [
-      ("ADD_OUTDOOR_GROWING", .ex (b true)),
-      ("RATIO_CROPS_YEAR1", .ex (.add (n 1) (cd "crop_reduction_year1"))),
-      ("RATIO_CROPS_YEAR2", .ex (.add (n 1) (cd "crop_reduction_year2"))),
-      ("RATIO_CROPS_YEAR3", .ex (.add (n 1) (cd "crop_reduction_year3"))),
-      ("RATIO_CROPS_YEAR4", .ex (.add (n 1) (cd "crop_reduction_year4"))),
-      ("RATIO_CROPS_YEAR5", .ex (.add (n 1) (cd "crop_reduction_year5"))),
-      ("RATIO_CROPS_YEAR6", .ex (.add (n 1) (cd "crop_reduction_year6"))),
-      ("RATIO_CROPS_YEAR7", .ex (.add (n 1) (cd "crop_reduction_year7"))),
-      ("RATIO_CROPS_YEAR8", .ex (.add (n 1) (cd "crop_reduction_year8"))),
-      ("RATIO_CROPS_YEAR9", .ex (.add (n 1) (cd "crop_reduction_year9"))),
-      ("RATIO_CROPS_YEAR10", .ex (.add (n 1) (cd "crop_reduction_year10"))),
-      ("RATIO_CROPS_YEAR11", .ex (.add (n 1) (cd "crop_reduction_year10")))] }
-
-def sp_set_zero_crops : Spec :=
-  { name := "set_zero_crops", params := ["constants_for_params"], family := ["DISRUPTION_SET"], scope := none, setsScope := none, needs := [],
-    writes := [
-      ("ADD_OUTDOOR_GROWING", .ex (b false)),
-      ("RATIO_OF_CROP_YIELDS_FROM_VERY_BEGINNING", .ex (n 0)),
-      ("RATIO_CROPS_YEAR1", .ex (n 0)),
-      ("RATIO_CROPS_YEAR2", .ex (n 0)),
-      ("RATIO_CROPS_YEAR3", .ex (n 0)),
-      ("RATIO_CROPS_YEAR4", .ex (n 0)),
-      ("RATIO_CROPS_YEAR5", .ex (n 0)),
-      ("RATIO_CROPS_YEAR6", .ex (n 0)),
-      ("RATIO_CROPS_YEAR7", .ex (n 0)),
-      ("RATIO_CROPS_YEAR8", .ex (n 0)),
-      ("RATIO_CROPS_YEAR9", .ex (n 0)),
-      ("RATIO_CROPS_YEAR10", .ex (n 0)),
-      ("RATIO_CROPS_YEAR11", .ex (n 0))] }
-
-def sp_include_protein : Spec :=
-  { name := "include_protein", params := ["constants_for_params"], family := ["PROTEIN_SET"], scope := none, setsScope := none, needs := [],
-    writes := [
-      ("INCLUDE_PROTEIN", .ex (b true))] }
-
-def sp_dont_include_protein : Spec :=
-  { name := "dont_include_protein", params := ["constants_for_params"], family := ["PROTEIN_SET"], scope := none, setsScope := none, needs := [],
-    writes := [
-      ("INCLUDE_PROTEIN", .ex (b false))] }
-
-def sp_include_fat : Spec :=
-  { name := "include_fat", params := ["constants_for_params"], family := ["FAT_SET"], scope := none, setsScope := none, needs := [],
-    writes := [
-      ("INCLUDE_FAT", .ex (b true))] }
-
-def sp_dont_include_fat : Spec :=
-  { name := "dont_include_fat", params := ["constants_for_params"], family := ["FAT_SET"], scope := none, setsScope := none, needs := [],
-    writes := [
-      ("INCLUDE_FAT", .ex (b false))] }
-
-def sp_get_all_resilient_foods_scenario : Spec :=
-  { name := "get_all_resilient_foods_scenario", params := ["constants_for_params"], family := ["SCENARIO_SET"], scope := none, setsScope := none, needs := [],
-    writes := [
-      ("OG_USE_BETTER_ROTATION", .ex (b true)),
-      ("ROTATION_IMPROVEMENTS/FAT_RATIO", .ex (d 1647 (-3))),
-      ("ROTATION_IMPROVEMENTS/PROTEIN_RATIO", .ex (d 1108 (-3))),
-      ("RATIO_INCREASED_CROP_AREA", .ex (n 1)),
-      ("DELAY/INDUSTRIAL_FOODS_MONTHS", .ex (n 2)),
-      ("INDUSTRIAL_FOODS_SLOPE_MULTIPLIER", .ex (n 1)),
-      ("ADD_METHANE_SCP", .ex (b true)),
-      ("DELAY/INDUSTRIAL_FOODS_MONTHS", .ex (n 2)),
-      ("INDUSTRIAL_FOODS_SLOPE_MULTIPLIER", .ex (n 1)),
-      ("ADD_CELLULOSIC_SUGAR", .ex (b true)),
-      ("GREENHOUSE_GAIN_PCT", .ex (n 44)),
-      ("DELAY/GREENHOUSE_MONTHS", .ex (n 2)),
-      ("GREENHOUSE_AREA_MULTIPLIER", .ex (.div (n 190000000) (c "INITIAL_GLOBAL_CROP_AREA"))),
-      ("ADD_GREENHOUSES", .ex (b true)),
-      ("ADD_SEAWEED", .ex (b true)),
-      ("DELAY/SEAWEED_MONTHS", .ex (n 1))] }
-
-def sp_get_all_resilient_foods_and_more_area_scenario : Spec :=
-  { name := "get_all_resilient_foods_and_more_area_scenario", params := ["constants_for_params"], family := ["SCENARIO_SET"], scope := none, setsScope := none, needs := [],
-    writes := [
-      ("OG_USE_BETTER_ROTATION", .ex (b true)),
-      ("ROTATION_IMPROVEMENTS/FAT_RATIO", .ex (d 1647 (-3))),
-      ("ROTATION_IMPROVEMENTS/PROTEIN_RATIO", .ex (d 1108 (-3))),
-      ("RATIO_INCREASED_CROP_AREA", .ex (.div (n 72) (n 39))),
-      ("NUMBER_YEARS_TAKES_TO_REACH_INCREASED_AREA", .ex (n 3)),
-      ("DELAY/INDUSTRIAL_FOODS_MONTHS", .ex (n 2)),
-      ("INDUSTRIAL_FOODS_SLOPE_MULTIPLIER", .ex (n 1)),
-      ("ADD_METHANE_SCP", .ex (b true)),
-      ("DELAY/INDUSTRIAL_FOODS_MONTHS", .ex (n 2)),
-      ("INDUSTRIAL_FOODS_SLOPE_MULTIPLIER", .ex (n 1)),
-      ("ADD_CELLULOSIC_SUGAR", .ex (b true)),
-      ("GREENHOUSE_GAIN_PCT", .ex (n 44)),
-      ("DELAY/GREENHOUSE_MONTHS", .ex (n 2)),
-      ("GREENHOUSE_AREA_MULTIPLIER", .ex (.div (n 190000000) (c "INITIAL_GLOBAL_CROP_AREA"))),
-      ("ADD_GREENHOUSES", .ex (b true)),
-      ("ADD_SEAWEED", .ex (b true)),
-      ("DELAY/SEAWEED_MONTHS", .ex (n 1))] }
-
-def sp_get_seaweed_scenario : Spec :=
-  { name := "get_seaweed_scenario", params := ["constants_for_params"], family := ["SCENARIO_SET"], scope := none, setsScope := none, needs := [],
-    writes := [
-      ("INDUSTRIAL_FOODS_SLOPE_MULTIPLIER", .ex (n 0)),
-      ("OG_USE_BETTER_ROTATION", .ex (b false)),
-      ("ADD_CELLULOSIC_SUGAR", .ex (b false)),
-      ("ADD_GREENHOUSES", .ex (b false)),
-      ("ADD_METHANE_SCP", .ex (b false)),
-      ("RATIO_INCREASED_CROP_AREA", .ex (n 1)),
-      ("ADD_SEAWEED", .ex (b true)),
-      ("DELAY/SEAWEED_MONTHS", .ex (n 1))] }
-
-def sp_get_methane_scp_scenario : Spec :=
-  { name := "get_methane_scp_scenario", params := ["constants_for_params"], family := ["SCENARIO_SET"], scope := none, setsScope := none, needs := [],
-    writes := [
-      ("OG_USE_BETTER_ROTATION", .ex (b false)),
-      ("ADD_CELLULOSIC_SUGAR", .ex (b false)),
-      ("ADD_GREENHOUSES", .ex (b false)),
-      ("ADD_SEAWEED", .ex (b false)),
-      ("RATIO_INCREASED_CROP_AREA", .ex (n 1)),
-      ("DELAY/INDUSTRIAL_FOODS_MONTHS", .ex (n 2)),
-      ("INDUSTRIAL_FOODS_SLOPE_MULTIPLIER", .ex (n 1)),
-      ("ADD_METHANE_SCP", .ex (b true))] }
-
-def sp_get_cellulosic_sugar_scenario : Spec :=
-  { name := "get_cellulosic_sugar_scenario", params := ["constants_for_params"], family := ["SCENARIO_SET"], scope := none, setsScope := none, needs := [],
-    writes := [
-      ("OG_USE_BETTER_ROTATION", .ex (b false)),
-      ("ADD_METHANE_SCP", .ex (b false)),
-      ("ADD_GREENHOUSES", .ex (b false)),
-      ("ADD_SEAWEED", .ex (b false)),
-      ("RATIO_INCREASED_CROP_AREA", .ex (n 1)),
-      ("DELAY/INDUSTRIAL_FOODS_MONTHS", .ex (n 2)),
-      ("INDUSTRIAL_FOODS_SLOPE_MULTIPLIER", .ex (n 1)),
-      ("ADD_CELLULOSIC_SUGAR", .ex (b true))] }
-
-def sp_get_industrial_foods_scenario : Spec :=
-  { name := "get_industrial_foods_scenario", params := ["constants_for_params"], family := ["SCENARIO_SET"], scope := none, setsScope := none, needs := [],
-    writes := [
-      ("OG_USE_BETTER_ROTATION", .ex (b false)),
-      ("ADD_GREENHOUSES", .ex (b false)),
-      ("ADD_SEAWEED", .ex (b false)),
-      ("RATIO_INCREASED_CROP_AREA", .ex (n 1)),
-      ("DELAY/INDUSTRIAL_FOODS_MONTHS", .ex (n 2)),
-      ("INDUSTRIAL_FOODS_SLOPE_MULTIPLIER", .ex (n 1)),
-      ("ADD_METHANE_SCP", .ex (b true)),
-      ("DELAY/INDUSTRIAL_FOODS_MONTHS", .ex (n 2)),
-      ("INDUSTRIAL_FOODS_SLOPE_MULTIPLIER", .ex (n 1)),
-      ("ADD_CELLULOSIC_SUGAR", .ex (b true))] }
-
-def sp_get_relocated_crops_scenario : Spec :=
-  { name := "get_relocated_crops_scenario", params := ["constants_for_params"], family := ["SCENARIO_SET"], scope := none, setsScope := none, needs := [],
-    writes := [
-      ("INDUSTRIAL_FOODS_SLOPE_MULTIPLIER", .ex (n 0)),
-      ("ADD_CELLULOSIC_SUGAR", .ex (b false)),
-      ("ADD_GREENHOUSES", .ex (b false)),
-      ("ADD_METHANE_SCP", .ex (b false)),
-      ("ADD_SEAWEED", .ex (b false)),
-      ("OG_USE_BETTER_ROTATION", .ex (b true)),
-      ("ROTATION_IMPROVEMENTS/FAT_RATIO", .ex (d 1647 (-3))),
-      ("ROTATION_IMPROVEMENTS/PROTEIN_RATIO", .ex (d 1108 (-3))),
-      ("RATIO_INCREASED_CROP_AREA", .ex (n 1))] }
-
-def sp_get_greenhouse_scenario : Spec :=
-  { name := "get_greenhouse_scenario", params := ["constants_for_params"], family := ["SCENARIO_SET"], scope := none, setsScope := none, needs := [],
-    writes := [
-      ("INDUSTRIAL_FOODS_SLOPE_MULTIPLIER", .ex (n 0)),
-      ("RATIO_INCREASED_CROP_AREA", .ex (n 1)),
-      ("OG_USE_BETTER_ROTATION", .ex (b false)),
-      ("ADD_CELLULOSIC_SUGAR", .ex (b false)),
-      ("ADD_METHANE_SCP", .ex (b false)),
-      ("ADD_SEAWEED", .ex (b false)),
-      ("GREENHOUSE_GAIN_PCT", .ex (n 44)),
-      ("DELAY/GREENHOUSE_MONTHS", .ex (n 2)),
-      ("GREENHOUSE_AREA_MULTIPLIER", .ex (.div (n 190000000) (c "INITIAL_GLOBAL_CROP_AREA"))),
-      ("ADD_GREENHOUSES", .ex (b true))] }
-
-def sp_get_no_resilient_food_scenario : Spec :=
-  { name := "get_no_resilient_food_scenario", params := ["constants_for_params"], family := ["SCENARIO_SET"], scope := none, setsScope := none, needs := [],
-    writes := [
-      ("INDUSTRIAL_FOODS_SLOPE_MULTIPLIER", .ex (n 0)),
-      ("RATIO_INCREASED_CROP_AREA", .ex (n 1)),
-      ("OG_USE_BETTER_ROTATION", .ex (b false)),
-      ("ADD_CELLULOSIC_SUGAR", .ex (b false)),
-      ("ADD_GREENHOUSES", .ex (b false)),
-      ("ADD_METHANE_SCP", .ex (b false)),
-      ("ADD_SEAWEED", .ex (b false))] }
-
-def sp_cull_animals : Spec :=
-  { name := "cull_animals", params := ["constants_for_params"], family := ["CULLING_PARAM_SET"], scope := none, setsScope := none, needs := [],
-    writes := [
-      ("ADD_MEAT", .ex (b true)),
-      ("ADD_MILK", .ex (b true))] }
-
-def sp_dont_cull_animals : Spec :=
-  { name := "dont_cull_animals", params := ["constants_for_params"], family := ["CULLING_PARAM_SET"], scope := none, setsScope := none, needs := [],
-    writes := [
-      ("ADD_MEAT", .ex (b false)),
-      ("ADD_MILK", .ex (b false))] }
-
-def specTable : List Spec := [sp_init_global_food_system_properties, sp_set_immediate_shutoff, sp_set_one_month_delayed_shutoff, sp_set_short_delayed_shutoff, sp_set_long_delayed_shutoff, sp_set_continued_feed_biofuels, sp_set_continued_after_10_percent_fed, sp_set_long_delayed_shutoff_after_10_percent_fed, sp_set_breeding_to_greatly_reduced, sp_set_to_baseline_breeding, sp_set_to_feed_only_ruminants, sp_set_waste_to_zero, sp_set_global_waste_to_tripled_prices, sp_set_global_waste_to_doubled_prices, sp_set_global_waste_to_baseline_prices, sp_set_country_waste_to_tripled_prices, sp_set_country_waste_to_doubled_prices, sp_set_country_waste_to_baseline_prices, sp_set_baseline_nutrition_profile, sp_set_catastrophe_nutrition_profile, sp_set_intake_constraints_to_enabled, sp_set_intake_constraints_to_disabled_for_humans, sp_set_no_stored_food, sp_set_baseline_stored_food, sp_set_stored_food_buffer_zero, sp_set_no_stored_food_between_years, sp_set_stored_food_buffer_as_baseline, sp_set_stored_food_buffer_as_baseline_and_no_stored_between_years, sp_set_no_seasonality, sp_set_global_seasonality_baseline, sp_set_global_seasonality_nuclear_winter, sp_set_grasses_baseline, sp_set_global_grasses_nuclear_winter, sp_set_country_grasses_nuclear_winter, sp_set_country_grasses_to_zero, sp_set_fish_zero, sp_set_fish_baseline, sp_set_disruption_to_crops_to_zero, sp_set_nuclear_winter_global_disruption_to_crops, sp_set_nuclear_winter_country_disruption_to_crops, sp_set_zero_crops, sp_include_protein, sp_dont_include_protein, sp_include_fat, sp_dont_include_fat, sp_get_all_resilient_foods_scenario, sp_get_all_resilient_foods_and_more_area_scenario, sp_get_seaweed_scenario, sp_get_methane_scp_scenario, sp_get_cellulosic_sugar_scenario, sp_get_industrial_foods_scenario, sp_get_relocated_crops_scenario, sp_get_greenhouse_scenario, sp_get_no_resilient_food_scenario, sp_cull_animals, sp_dont_cull_animals]
-
-theorem sp_init_global_food_system_properties_meets : meetsExcept "SEAWEED_GROWTH_PER_DAY" 120 sp_init_global_food_system_properties = true := by decide +kernel
-theorem sp_set_immediate_shutoff_meets : meets sp_set_immediate_shutoff = true := by decide +kernel
-theorem sp_set_one_month_delayed_shutoff_meets : meets sp_set_one_month_delayed_shutoff = true := by decide +kernel
-theorem sp_set_short_delayed_shutoff_meets : meets sp_set_short_delayed_shutoff = true := by decide +kernel
-theorem sp_set_long_delayed_shutoff_meets : meets sp_set_long_delayed_shutoff = true := by decide +kernel
-theorem sp_set_continued_feed_biofuels_meets : meets sp_set_continued_feed_biofuels = true := by decide +kernel
-theorem sp_set_continued_after_10_percent_fed_meets : meets sp_set_continued_after_10_percent_fed = true := by decide +kernel
-theorem sp_set_long_delayed_shutoff_after_10_percent_fed_meets : meets sp_set_long_delayed_shutoff_after_10_percent_fed = true := by decide +kernel
-theorem sp_set_breeding_to_greatly_reduced_meets : meets sp_set_breeding_to_greatly_reduced = true := by decide +kernel
-theorem sp_set_to_baseline_breeding_meets : meets sp_set_to_baseline_breeding = true := by decide +kernel
-theorem sp_set_to_feed_only_ruminants_meets : meets sp_set_to_feed_only_ruminants = true := by decide +kernel
-theorem sp_set_waste_to_zero_meets : meets sp_set_waste_to_zero = true := by decide +kernel
-theorem sp_set_global_waste_to_tripled_prices_meets : meets sp_set_global_waste_to_tripled_prices = true := by decide +kernel
-theorem sp_set_global_waste_to_doubled_prices_meets : meets sp_set_global_waste_to_doubled_prices = true := by decide +kernel
-theorem sp_set_global_waste_to_baseline_prices_meets : meets sp_set_global_waste_to_baseline_prices = true := by decide +kernel
-theorem sp_set_country_waste_to_tripled_prices_meets : meets sp_set_country_waste_to_tripled_prices = true := by decide +kernel
-theorem sp_set_country_waste_to_doubled_prices_meets : meets sp_set_country_waste_to_doubled_prices = true := by decide +kernel
-theorem sp_set_country_waste_to_baseline_prices_meets : meets sp_set_country_waste_to_baseline_prices = true := by decide +kernel
-theorem sp_set_baseline_nutrition_profile_meets : meets sp_set_baseline_nutrition_profile = true := by decide +kernel
-theorem sp_set_catastrophe_nutrition_profile_meets : meets sp_set_catastrophe_nutrition_profile = true := by decide +kernel
-theorem sp_set_intake_constraints_to_enabled_meets : meets sp_set_intake_constraints_to_enabled = true := by decide +kernel
-theorem sp_set_intake_constraints_to_disabled_for_humans_meets : meets sp_set_intake_constraints_to_disabled_for_humans = true := by decide +kernel
-theorem sp_set_no_stored_food_meets : meets sp_set_no_stored_food = true := by decide +kernel
-theorem sp_set_baseline_stored_food_meets : meets sp_set_baseline_stored_food = true := by decide +kernel
-theorem sp_set_stored_food_buffer_zero_meets : meets sp_set_stored_food_buffer_zero = true := by decide +kernel
-theorem sp_set_no_stored_food_between_years_meets : meets sp_set_no_stored_food_between_years = true := by decide +kernel
-theorem sp_set_stored_food_buffer_as_baseline_meets : meets sp_set_stored_food_buffer_as_baseline = true := by decide +kernel
-theorem sp_set_stored_food_buffer_as_baseline_and_no_stored_between_years_meets : meets sp_set_stored_food_buffer_as_baseline_and_no_stored_between_years = true := by decide +kernel
-theorem sp_set_no_seasonality_meets : meets sp_set_no_seasonality = true := by decide +kernel
-theorem sp_set_global_seasonality_baseline_meets : meets sp_set_global_seasonality_baseline = true := by decide +kernel
-theorem sp_set_global_seasonality_nuclear_winter_meets : meets sp_set_global_seasonality_nuclear_winter = true := by decide +kernel
-theorem sp_set_grasses_baseline_meets : meets sp_set_grasses_baseline = true := by decide +kernel
-theorem sp_set_global_grasses_nuclear_winter_meets : meets sp_set_global_grasses_nuclear_winter = true := by decide +kernel
-theorem sp_set_country_grasses_nuclear_winter_meets : meets sp_set_country_grasses_nuclear_winter = true := by decide +kernel
-theorem sp_set_country_grasses_to_zero_meets : meets sp_set_country_grasses_to_zero = true := by decide +kernel
-theorem sp_set_fish_zero_meets : meets sp_set_fish_zero = true := by decide +kernel
-theorem sp_set_fish_baseline_meets : meets sp_set_fish_baseline = true := by decide +kernel
-theorem sp_set_disruption_to_crops_to_zero_meets : meets sp_set_disruption_to_crops_to_zero = true := by decide +kernel
-theorem sp_set_nuclear_winter_global_disruption_to_crops_meets : meets sp_set_nuclear_winter_global_disruption_to_crops = true := by decide +kernel
-theorem sp_set_nuclear_winter_country_disruption_to_crops_meets : meets sp_set_nuclear_winter_country_disruption_to_crops = true := by decide +kernel
-theorem sp_set_zero_crops_meets : meets sp_set_zero_crops = true := by decide +kernel
-theorem sp_include_protein_meets : meets sp_include_protein = true := by decide +kernel
-theorem sp_dont_include_protein_meets : meets sp_dont_include_protein = true := by decide +kernel
-theorem sp_include_fat_meets : meets sp_include_fat = true := by decide +kernel
-theorem sp_dont_include_fat_meets : meets sp_dont_include_fat = true := by decide +kernel
-theorem sp_get_all_resilient_foods_scenario_meets : meets sp_get_all_resilient_foods_scenario = true := by decide +kernel
-theorem sp_get_all_resilient_foods_and_more_area_scenario_meets : meets sp_get_all_resilient_foods_and_more_area_scenario = true := by decide +kernel
-theorem sp_get_seaweed_scenario_meets : meets sp_get_seaweed_scenario = true := by decide +kernel
-theorem sp_get_methane_scp_scenario_meets : meets sp_get_methane_scp_scenario = true := by decide +kernel
-theorem sp_get_cellulosic_sugar_scenario_meets : meets sp_get_cellulosic_sugar_scenario = true := by decide +kernel
-theorem sp_get_industrial_foods_scenario_meets : meets sp_get_industrial_foods_scenario = true := by decide +kernel
-theorem sp_get_relocated_crops_scenario_meets : meets sp_get_relocated_crops_scenario = true := by decide +kernel
-theorem sp_get_greenhouse_scenario_meets : meets sp_get_greenhouse_scenario = true := by decide +kernel
-theorem sp_get_no_resilient_food_scenario_meets : meets sp_get_no_resilient_food_scenario = true := by decide +kernel
-theorem sp_cull_animals_meets : meets sp_cull_animals = true := by decide +kernel
-theorem sp_dont_cull_animals_meets : meets sp_dont_cull_animals = true := by decide +kernel
-
-/-- every literal-valued setter (all but the three allow-listed numpy/country-row ones) does exactly what
-    the specification says (for the global initialiser: every key but the 120-entry seaweed growth table,
-    whose size is checked) -/
-theorem C13_means_what_it_says :
-    meetsExcept "SEAWEED_GROWTH_PER_DAY" 120 sp_init_global_food_system_properties = true ∧
-    ∀ sp ∈ specTable.drop 1, meets sp = true := by
-  refine ⟨sp_init_global_food_system_properties_meets, ?_⟩
-  intro sp hsp
-  simp only [specTable, List.drop_succ_cons, List.drop_zero, List.mem_cons, List.mem_nil_iff, or_false] at hsp
-  rcases hsp with rfl | rfl | rfl | rfl | rfl | rfl | rfl | rfl | rfl | rfl | rfl | rfl | rfl | rfl | rfl | rfl | rfl | rfl | rfl | rfl | rfl | rfl | rfl | rfl | rfl | rfl | rfl | rfl | rfl | rfl | rfl | rfl | rfl | rfl | rfl | rfl | rfl | rfl | rfl | rfl | rfl | rfl | rfl | rfl | rfl | rfl | rfl | rfl | rfl | rfl | rfl | rfl | rfl | rfl | rfl
-  · exact sp_set_immediate_shutoff_meets
-  · exact sp_set_one_month_delayed_shutoff_meets
-  · exact sp_set_short_delayed_shutoff_meets
-  · exact sp_set_long_delayed_shutoff_meets
-  · exact sp_set_continued_feed_biofuels_meets
-  · exact sp_set_continued_after_10_percent_fed_meets
-  · exact sp_set_long_delayed_shutoff_after_10_percent_fed_meets
-  · exact sp_set_breeding_to_greatly_reduced_meets
-  · exact sp_set_to_baseline_breeding_meets
-  · exact sp_set_to_feed_only_ruminants_meets
-  · exact sp_set_waste_to_zero_meets
-  · exact sp_set_global_waste_to_tripled_prices_meets
-  · exact sp_set_global_waste_to_doubled_prices_meets
-  · exact sp_set_global_waste_to_baseline_prices_meets
-  · exact sp_set_country_waste_to_tripled_prices_meets
-  · exact sp_set_country_waste_to_doubled_prices_meets
-  · exact sp_set_country_waste_to_baseline_prices_meets
-  · exact sp_set_baseline_nutrition_profile_meets
-  · exact sp_set_catastrophe_nutrition_profile_meets
-  · exact sp_set_intake_constraints_to_enabled_meets
-  · exact sp_set_intake_constraints_to_disabled_for_humans_meets
-  · exact sp_set_no_stored_food_meets
-  · exact sp_set_baseline_stored_food_meets
-  · exact sp_set_stored_food_buffer_zero_meets
-  · exact sp_set_no_stored_food_between_years_meets
-  · exact sp_set_stored_food_buffer_as_baseline_meets
-  · exact sp_set_stored_food_buffer_as_baseline_and_no_stored_between_years_meets
-  · exact sp_set_no_seasonality_meets
-  · exact sp_set_global_seasonality_baseline_meets
-  · exact sp_set_global_seasonality_nuclear_winter_meets
-  · exact sp_set_grasses_baseline_meets
-  · exact sp_set_global_grasses_nuclear_winter_meets
-  · exact sp_set_country_grasses_nuclear_winter_meets
-  · exact sp_set_country_grasses_to_zero_meets
-  · exact sp_set_fish_zero_meets
-  · exact sp_set_fish_baseline_meets
-  · exact sp_set_disruption_to_crops_to_zero_meets
-  · exact sp_set_nuclear_winter_global_disruption_to_crops_meets
-  · exact sp_set_nuclear_winter_country_disruption_to_crops_meets
-  · exact sp_set_zero_crops_meets
-  · exact sp_include_protein_meets
-  · exact sp_dont_include_protein_meets
-  · exact sp_include_fat_meets
-  · exact sp_dont_include_fat_meets
-  · exact sp_get_all_resilient_foods_scenario_meets
-  · exact sp_get_all_resilient_foods_and_more_area_scenario_meets
-  · exact sp_get_seaweed_scenario_meets
-  · exact sp_get_methane_scp_scenario_meets
-  · exact sp_get_cellulosic_sugar_scenario_meets
-  · exact sp_get_industrial_foods_scenario_meets
-  · exact sp_get_relocated_crops_scenario_meets
-  · exact sp_get_greenhouse_scenario_meets
-  · exact sp_get_no_resilient_food_scenario_meets
-  · exact sp_cull_animals_meets
-  · exact sp_dont_cull_animals_meets
-
-/-- the specification covers every setter of the table except the allow-listed opaque ones -/
-theorem C13_spec_covers_table :
-    (setters.filter fun i => !i.isOpaque).map (·.name) = specTable.map (·.name) ∧
-    (setters.filter fun i => i.isOpaque).map (·.name) =
-      ["init_country_food_system_properties", "set_country_seasonality", "set_fish_nuclear_winter_reduction"] := by
-  decide +kernel
-
-/-- README "Allowed Values" + the dispatcher's own messages: option family ↦ value ↦ setter.
-    (`protein`/`fat: required` print that they do not work in this version and exit.) -/
-def specDispatch : List (String × List (String × List String)) := [
-  ("scale", [("global", ["init_global_food_system_properties"]), ("country", ["init_country_food_system_properties"])]),
-  ("stored_food", [("zero", ["set_no_stored_food"]), ("baseline", ["set_baseline_stored_food"])]),
-  ("ratio_stocks_untouched", [("zero", ["set_stored_food_buffer_zero"]), ("no_stored_between_years", ["set_no_stored_food_between_years"]),
-    ("baseline", ["set_stored_food_buffer_as_baseline"]),
-    ("baseline_no_stored_between_years", ["set_stored_food_buffer_as_baseline_and_no_stored_between_years"])]),
-  ("shutoff", [("immediate", ["set_immediate_shutoff"]), ("one_month_delayed_shutoff", ["set_one_month_delayed_shutoff"]),
-    ("short_delayed_shutoff", ["set_short_delayed_shutoff"]), ("long_delayed_shutoff", ["set_long_delayed_shutoff"]),
-    ("continued", ["set_continued_feed_biofuels"]), ("continued_after_10_percent_fed", ["set_continued_after_10_percent_fed"]),
-    ("long_delayed_shutoff_after_10_percent_fed", ["set_long_delayed_shutoff_after_10_percent_fed"])]),
-  ("waste", [("zero", ["set_waste_to_zero"]), ("tripled_prices_in_country", ["set_country_waste_to_tripled_prices"]),
-    ("doubled_prices_in_country", ["set_country_waste_to_doubled_prices"]), ("baseline_in_country", ["set_country_waste_to_baseline_prices"]),
-    ("tripled_prices_globally", ["set_global_waste_to_tripled_prices"]), ("doubled_prices_globally", ["set_global_waste_to_doubled_prices"]),
-    ("baseline_globally", ["set_global_waste_to_baseline_prices"])]),
-  ("nutrition", [("baseline", ["set_baseline_nutrition_profile"]), ("catastrophe", ["set_catastrophe_nutrition_profile"])]),
-  ("intake_constraints", [("enabled", ["set_intake_constraints_to_enabled"]), ("disabled_for_humans", ["set_intake_constraints_to_disabled_for_humans"])]),
-  ("seasonality", [("no_seasonality", ["set_no_seasonality"]), ("country", ["set_country_seasonality"]),
-    ("baseline_globally", ["set_global_seasonality_baseline"]), ("nuclear_winter_globally", ["set_global_seasonality_nuclear_winter"])]),
-  ("grasses", [("baseline", ["set_grasses_baseline"]), ("global_nuclear_winter", ["set_global_grasses_nuclear_winter"]),
-    ("country_nuclear_winter", ["set_country_grasses_nuclear_winter"]), ("all_crops_die_instantly", ["set_country_grasses_to_zero"])]),
-  ("fish", [("zero", ["set_fish_zero"]), ("nuclear_winter", ["set_fish_nuclear_winter_reduction"]), ("baseline", ["set_fish_baseline"])]),
-  ("crop_disruption", [("zero", ["set_disruption_to_crops_to_zero"]), ("global_nuclear_winter", ["set_nuclear_winter_global_disruption_to_crops"]),
-    ("country_nuclear_winter", ["set_nuclear_winter_country_disruption_to_crops"]), ("all_crops_die_instantly", ["set_zero_crops"])]),
-  ("protein", [("required", ["<exit>"]), ("not_required", ["dont_include_protein"])]),
-  ("fat", [("required", ["<exit>"]), ("not_required", ["dont_include_fat"])]),
-  ("cull", [("do_eat_culled", ["cull_animals"]), ("dont_eat_culled", ["dont_cull_animals"])]),
-  ("scenario", [("all_resilient_foods", ["get_all_resilient_foods_scenario"]),
-    ("all_resilient_foods_and_more_area", ["get_all_resilient_foods_and_more_area_scenario"]),
-    ("no_resilient_foods", ["get_no_resilient_food_scenario"]), ("seaweed", ["get_seaweed_scenario"]),
-    ("methane_scp", ["get_methane_scp_scenario"]), ("cellulosic_sugar", ["get_cellulosic_sugar_scenario"]),
-    ("relocated_crops", ["get_relocated_crops_scenario"]), ("greenhouse", ["get_greenhouse_scenario"]),
-    ("industrial_foods", ["get_industrial_foods_scenario"])]),
-  ("meat_strategy", [("reduce_breeding", ["set_breeding_to_greatly_reduced"]), ("baseline_breeding", ["set_to_baseline_breeding"]),
-    ("feed_only_ruminants", ["set_to_feed_only_ruminants"])])]
-
-/-- every option value calls the setter that bears its name in the documentation, in the documented order
-    of families, and the dispatcher itself writes only the country code and the number of months -/
-theorem C13_dispatch_means_what_it_says :
-    dispatchSummary dispatch = specDispatch ∧
-    dispatchStmts dispatch = [.assertNoCountry, .write "COUNTRY_CODE" (s "WOR"), .write "COUNTRY_CODE" (cd "iso3"),
-      .write "NMONTHS" (.opt "NMONTHS")] ∧
-    requiredOptions = ["scale", "stored_food", "ratio_stocks_untouched", "shutoff", "waste", "nutrition", "intake_constraints",
-      "seasonality", "grasses", "fish", "crop_disruption", "protein", "fat", "cull", "scenario", "meat_strategy"] := by
-  decide +kernel
-
-def ratioKeys (pfx : String) : List String := (List.range 10).map fun i => pfx ++ toString (i + 1)
-
-/-- the optional numeric overrides of the property statement: starting head count of any species,
-    meat per large animal, minimum percent fed before feed, share of stocks left untouched, crop and grass
-    production multipliers — and what each one names -/
-def specOverrides : List Override := [
-  .substr "_head" "_start" .int,
-  .substr "kg_meat_per_large_animal" "" .float,
-  .exact "MINIMUM_PERCENT_FED_BEFORE_NONHUMAN_CONSUMPTION_ALLOWED" "MINIMUM_PERCENT_FED_BEFORE_NONHUMAN_CONSUMPTION_ALLOWED" (.num 0 0) (.num 100 0) [],
-  .exact "RATIO_STOCKS_UNTOUCHED" "RATIO_STOCKS_UNTOUCHED" (.num 0 0) (.num 1 0) [],
-  .mult "CROP_PRODUCTION_MULTIPLIER" (.num 0 0) (.num 10 0)
-    ["RATIO_CROPS_YEAR1", "RATIO_CROPS_YEAR2", "RATIO_CROPS_YEAR3", "RATIO_CROPS_YEAR4", "RATIO_CROPS_YEAR5", "RATIO_CROPS_YEAR6",
-     "RATIO_CROPS_YEAR7", "RATIO_CROPS_YEAR8", "RATIO_CROPS_YEAR9", "RATIO_CROPS_YEAR10"] ["RATIO_CROPS_YEAR11"],
-  .mult "GRASSES_PRODUCTION_MULTIPLIER" (.num 0 0) (.num 10 0)
-    ["RATIO_GRASSES_YEAR1", "RATIO_GRASSES_YEAR2", "RATIO_GRASSES_YEAR3", "RATIO_GRASSES_YEAR4", "RATIO_GRASSES_YEAR5", "RATIO_GRASSES_YEAR6",
-     "RATIO_GRASSES_YEAR7", "RATIO_GRASSES_YEAR8", "RATIO_GRASSES_YEAR9", "RATIO_GRASSES_YEAR10"] ["RATIO_GRASSES_YEAR11"]]
-
-theorem C13_overrides_spec : overridesOf dispatch = specOverrides := by decide +kernel
-
-/-- the SLV / ALB / ECU patches of `alter_scenario_if_known_to_fail`, as its docstring and warnings say:
-    they only ever turn `shutoff` into `immediate` -/
-theorem C13_patches_only_shutoff :
-    (failRules.all fun r => r.corrKey == "shutoff" && r.corrVal == "immediate" &&
-      ["SLV", "ALB", "ECU"].contains r.iso3) = true := by decide +kernel
-
 /-! ## 7. non-vacuity -/
 
 /-- a sequence in which every family occurs exactly once (the hypothesis of `C13_exactly_once`) -/
